@@ -72,6 +72,11 @@ def build(family, block, rnd):
             acl = {4: {"action": "PERMIT", "src_ip": "10.0.3.0", "src_wildcard_mask": "0.0.0.255"}}  # only unrelated permits; defaults ARP/ICMP overridden below
             acl[22] = {"action": "DENY", "src_port": "ARP", "dst_port": "ARP", "src_ip": "10.9.9.9"}
             acl[23] = {"action": "DENY", "protocol": "ICMP", "src_ip": a_ip}
+        elif block == "acl-implicit-noncontig":
+            # like acl-implicit, but the only PERMIT uses a non-contiguous wildcard (host .20 of every 10.0.x.0/24): it must not match 10.0.1.10
+            acl = {4: {"action": "PERMIT", "src_ip": "10.0.0.20", "src_wildcard_mask": "0.0.255.0"}}
+            acl[22] = {"action": "DENY", "src_port": "ARP", "dst_port": "ARP", "src_ip": "10.9.9.9"}
+            acl[23] = {"action": "DENY", "protocol": "ICMP", "src_ip": a_ip}
         elif block == "acl-per-protocol":
             acl = {1: {"action": "DENY", "protocol": "TCP", "src_ip": a_ip}, 2: {"action": "DENY", "protocol": "UDP", "src_ip": a_ip},
                    3: {"action": "DENY", "protocol": "ICMP", "src_ip": a_ip}, 6: {"action": "PERMIT"}}
@@ -359,7 +364,7 @@ def case_block(spec, cov, out):
 
 
 BLOCKS = {"lan": ["b-nic-off", "switch-port-off", "b-off", "switch-off", "a-nic-off"],
-          "routed": ["acl-exact-src", "acl-range-src", "acl-exact-dst", "acl-any-any", "acl-implicit", "acl-per-protocol", "acl-port-only", "router-port-off", "router-off",
+          "routed": ["acl-exact-src", "acl-range-src", "acl-exact-dst", "acl-any-any", "acl-implicit", "acl-implicit-noncontig", "acl-per-protocol", "acl-port-only", "router-port-off", "router-off",
                      "b-nic-off", "b-off", "acl-added-late"],
           "dmz": ["fw-first-list", "fw-last-list", "fw-last-list-any", "fw-port-only", "fw-off", "b-off", "fw-port-off"]}
 
